@@ -544,6 +544,14 @@ func (g *seqGen) Next(r *RNG, hist []Op) (Op, bool) {
 				if realPfs == 0 {
 					realPfs = 1 << 30
 				}
+				// a limit of 0 means "the default" resp. "whatever the store has": never a mismatch
+				other := func(real int) int {
+					v := real - 1 + 2*r.Intn(2)
+					if v <= 0 {
+						v = real + 1
+					}
+					return v
+				}
 				switch r.Pick(60, 15, 15, 10) {
 				case 0: // another bit size
 					nb := 8 + r.Intn(9)
@@ -552,13 +560,13 @@ func (g *seqGen) Next(r *RNG, hist []Op) (Op, bool) {
 					}
 					g.bits = nb
 				case 1: // refused: index file size mismatch; then the original settings again
-					g.pending = append(g.pending, g.openOp(g.bits, realIfs-1+2*r.Intn(2), g.pfs), mkOp("disk"))
+					g.pending = append(g.pending, g.openOp(g.bits, other(realIfs), g.pfs), mkOp("disk"))
 				case 2: // refused: primary file size mismatch
 					if g.kind == "mh" {
-						g.pending = append(g.pending, g.openOp(g.bits, g.ifs, realPfs-1+2*r.Intn(2)), mkOp("disk"))
+						g.pending = append(g.pending, g.openOp(g.bits, g.ifs, other(realPfs)), mkOp("disk"))
 					}
 				case 3: // bit size and index file size together
-					g.pending = append(g.pending, g.openOp(8+r.Intn(9), realIfs-1+2*r.Intn(2), g.pfs), mkOp("disk"))
+					g.pending = append(g.pending, g.openOp(8+r.Intn(9), other(realIfs), g.pfs), mkOp("disk"))
 				}
 			}
 			g.pending = append(g.pending, g.openOp(g.bits, g.ifs, g.pfs), mkOp("view"), mkOp("disk"))
